@@ -16,28 +16,33 @@
 // Include AFTER `use vstd::prelude::*;` inside verus!{}.
 // ---------------------------------------------------------------------------------
 
-//@trusted T2 std::io::Error / crate::errors::Error are opaque values, modelled by one type (the snafu conversion From<io::Error> for errors::Error is the identity on the model, so that a `?` keeps the value); only the occurrence of an error, (for io) its ErrorKind and the ghost label "reported by a callee" (from_env / env) are modelled, never the message
+//@trusted T2 std::io::Error / crate::errors::Error are opaque values, modelled by one type (the snafu conversion From<io::Error> for errors::Error is the identity on the model, so that a `?` keeps the value); only the occurrence of an error, the variant PacketTooLarge { size }, (for io) its ErrorKind and the ghost label "reported by a callee" (from_env / env) are modelled, never the message
 #[derive(PartialEq, Eq, Clone, Copy, Structural)]
 pub enum IoErrorKind { Interrupted, UnexpectedEof, InvalidInput, InvalidData, Other }
 
 pub mod errors {
     use super::*;
-    pub struct Error { pub tag: u8, pub k: IoErrorKind }
+    /// crate::errors::Error restricted to the one variant the code under contract constructs by name (PacketTooLarge);
+    /// every other error value - io::Error included - is `Other`
+    pub enum Error { PacketTooLarge { size: u64 }, Other { tag: u8, k: IoErrorKind } }
     impl Error {
         /// reported by a callee of the code under contract (not made by that code itself)
         pub uninterp spec fn from_env(&self) -> bool;
         /// the same label under the name used for io::Error values
         pub open spec fn env(&self) -> bool { self.from_env() }
+        pub open spec fn spec_kind(&self) -> IoErrorKind {
+            match *self { Error::Other { k, .. } => k, Error::PacketTooLarge { .. } => IoErrorKind::Other }
+        }
         /// what R4 turns bail!(..) / format_err!(..) into
         #[verifier::external_body]
         pub fn opaque() -> (e: Error) { unimplemented!() }
         /// what R4 turns io::Error::other(..) / io::Error::new(kind, ..) into
         #[verifier::external_body]
-        pub fn new_opaque() -> (e: Error) ensures e.k == IoErrorKind::Other { unimplemented!() }
+        pub fn new_opaque() -> (e: Error) ensures e.spec_kind() == IoErrorKind::Other { unimplemented!() }
         #[verifier::external_body]
-        pub fn new_kind(k: IoErrorKind) -> (e: Error) ensures e.k == k { unimplemented!() }
+        pub fn new_kind(k: IoErrorKind) -> (e: Error) ensures e.spec_kind() == k { unimplemented!() }
         #[verifier::external_body]
-        pub fn kind(&self) -> (k: IoErrorKind) ensures k == self.k { unimplemented!() }
+        pub fn kind(&self) -> (k: IoErrorKind) ensures k == self.spec_kind() { unimplemented!() }
     }
     pub type Result<T> = core::result::Result<T, Error>;
 }
